@@ -305,7 +305,10 @@ fn case_commands_with(t: &mut Tape, st: &mut Stats, max_lines: usize) -> Verdict
     let mut outs = 0usize;
     let mut user: Vec<String> = vec![];
     let n = 1 + t.len(max_lines - 1);
+    // top-level boundaries at which the script can be cut into two runs on one context
+    let mut cuts: Vec<usize> = vec![];
     for _ in 0..n {
+        cuts.push(script.len());
         match t.weighted(&[30, 1, 1, 1, 1, 1]) {
             5 => {
                 // collections that (transitively) contain their own handle, and recursive operations on them
@@ -391,13 +394,50 @@ fn case_commands_with(t: &mut Tape, st: &mut Stats, max_lines: usize) -> Verdict
         eprintln!("----- script -----\n{}-----", script);
     }
     hz_reset();
-    let r = guarded(|| run_text(&script, safe_context(), 200_000, None));
+    // one case in five: the script is run in two parts, the second on the context the first returned (functions,
+    // aliases, handles and state of the first run are still there; its line numbers are not)
+    let cut = if t.chance(1, 5) && cuts.len() > 1 { Some(cuts[1 + t.below(cuts.len() - 1)]) } else { None };
+    if std::env::var("DSVERIF_PRINT_SCRIPT").is_ok() {
+        eprintln!("second run starts at byte {:?}: {:?}", cut, cut.map(|c| script[c..].lines().next().unwrap_or("").to_string()));
+    }
+    let second_run_cut = std::cell::Cell::new(false);
+    let r = guarded(|| match cut {
+        None => run_text(&script, safe_context(), 200_000, None),
+        Some(at) => {
+            let first = run_text(&script[..at], safe_context(), 200_000, None);
+            if first.fuel_exhausted || first.depth_exceeded {
+                return first;
+            }
+            match first.result {
+                // a function defined in the first part keeps the line numbers of the first script: calling it from the
+                // second part is a jump to an unrelated line, i.e. possibly a loop the generator did not write. The
+                // second run therefore gets little fuel, and running out of it is not a verdict.
+                Ok(ctx) => {
+                    let mut second = run_text(&script[at..], ctx, 2_000, None);
+                    if second.fuel_exhausted || second.depth_exceeded {
+                        second.fuel_exhausted = false;
+                        second.depth_exceeded = false;
+                        second_run_cut.set(true);
+                    }
+                    second
+                }
+                Err(_) => first,
+            }
+        }
+    });
+    if cut.is_some() {
+        st.class("script-run-in-two-parts-on-one-context");
+    }
+    if second_run_cut.get() {
+        st.class("second-run-cut-after-2000-instructions");
+    }
+
     match r {
-        Err((msg, loc)) => fail(&panic_signature(&loc), json!({"script": script, "panic": msg, "location": loc})),
+        Err((msg, loc)) => fail(&panic_signature(&loc), json!({"script": script, "second_run_starts_at_byte": cut, "panic": msg, "location": loc})),
         Ok(out) => {
             if out.fuel_exhausted || out.depth_exceeded {
                 // no user-written loop: a command that is not a loop construct did not finish
-                return fail("C07/does-not-finish", json!({"script": script, "fuel_used": out.fuel_used, "nesting_limit_hit": out.depth_exceeded}));
+                return fail("C07/does-not-finish", json!({"script": script, "second_run_starts_at_byte": cut, "fuel_used": out.fuel_used, "nesting_limit_hit": out.depth_exceeded}));
             }
             st.class(if out.result.is_ok() { "run-ok" } else { "run-err" });
             if st.want_sample() {
@@ -416,7 +456,7 @@ fn case_commands_large(t: &mut Tape, st: &mut Stats) -> Verdict {
     case_commands_with(t, st, 80)
 }
 
-const SOUP: &[&str] = &[" ", " ", " ", "\n", "\n", "=", " = ", "\"", "\\", "#", ":", "!", "${ha}", "${", "%{hm}", "%", "$", "(", ")", "and", "or", "not", "true", "false", "0", "-r", "--copy", "\t", "é", "😀", "\0"];
+const SOUP: &[&str] = &[" ", " ", " ", "\n", "\n", "=", " = ", "\"", "\\", "#", ":", "!", "${ha}", "${", "%{hm}", "%", "$", "(", ")", "and", "or", "not", "true", "false", "0", "-r", "--copy", "\t", "é", "😀", "\0", "\u{feff}", "\u{feff}", "\u{85}", "\u{2028}"];
 
 fn case_text(t: &mut Tape, st: &mut Stats) -> Verdict {
     let names = all_names();
@@ -501,7 +541,7 @@ fn case_cycle(t: &mut Tape, st: &mut Stats) -> Verdict {
 pub fn property() -> Property {
     Property {
         id: "C07",
-        rule: "(commands) 1..25 (thorough ..80) lines after a preamble that creates an array, maps, a set, a byte array, a released handle and variables; each line invokes ANY registered name of the SDK (all aliases and canonical names, minus the removed families) with an argument list drawn from a TYPED pool derived from the usage line of its help text (handles of the right/wrong kind, released, unknown; numbers incl. negative, huge, decimal, non-numeric, non-ASCII digits; multi-byte and syntax-bearing text; variable names; relative non-existing paths; documented flags) or from an UNTYPED pool (any value anywhere), with outputs chained into later arguments, exit_on_error toggles, finite for loops (whose body may shorten, clear, release or re-point the iterated array), user aliases of SDK commands and user functions with SDK-only bodies; (text) token soup of real command names, syntax characters and hazard strings; (include-cycle) files forming an include cycle of length 1..4 with relative/absolute/.. paths, parsed in a child process. Oracle: the run returns Ok or Err - a panic (caught, with location) is a violation; every shard runs in a child process, so an abort or stack overflow is attributed to the case that was running; fuel or nesting-limit exhaustion in (commands) is the 'does not finish' verdict because no generated line is a loop construct, alias of an alias, or recursive function; in (text) it is only counted. Non-trivial: every (commands) case; distinct by script text",
+        rule: "(commands) 1..25 (thorough ..80) lines after a preamble that creates an array, maps, a set, a byte array, a released handle and variables; each line invokes ANY registered name of the SDK (all aliases and canonical names, minus the removed families) with an argument list drawn from a TYPED pool derived from the usage line of its help text (handles of the right/wrong kind, released, unknown; numbers incl. negative, huge, decimal, non-numeric, non-ASCII digits; multi-byte and syntax-bearing text; variable names; relative non-existing paths; documented flags) or from an UNTYPED pool (any value anywhere), with outputs chained into later arguments, exit_on_error toggles, finite for loops (whose body may shorten, clear, release or re-point the iterated array), user aliases of SDK commands and user functions with SDK-only bodies; one case in five is run in two parts, the second part on the context returned by the first; (text) token soup of real command names, syntax characters and hazard strings; (include-cycle) files forming an include cycle of length 1..4 with relative/absolute/.. paths, parsed in a child process. Oracle: the run returns Ok or Err - a panic (caught, with location) is a violation; every shard runs in a child process, so an abort or stack overflow is attributed to the case that was running; fuel or nesting-limit exhaustion in (commands) is the 'does not finish' verdict because no generated line is a loop construct, alias of an alias, or recursive function; in (text) it is only counted. Non-trivial: every (commands) case; distinct by script text",
         assumptions: &[
             "removed from the context before anything runs (stated exclusions + safety of the root-run checker): exec, spawn, exit/quit/q, watchdog, sleep, read, network commands, hostname, cd, set_env/unset_env, test_directory/test_file, every command that creates, modifies, deletes, lists or reads files (writefile, appendfile, cp, mv, rm, mkdir, touch, chmod, zip, glob_array, ls, cat, readfile, digest ...), which, man, and the internal:: family (its documentation generator writes a file to any path it is given)",
             "resource-proportional requests are bounded: range / random_text / random_range only receive literal numbers of magnitude <= 255, never a value computed by an earlier line, and are not spelled in the text soup",
@@ -515,7 +555,7 @@ pub fn property() -> Property {
                     Tier::Thorough => Plan::Random { cases: 6_000_000, max_len: 500 },
                 },
                 case: case_commands,
-                min_classes: &[("typed-argument-list", 500_000), ("untyped-argument-list", 200_000), ("user-alias", 5000), ("user-function", 5000), ("finite-for-loop", 5000), ("loop-body-shrinks-the-iterated-array", 1500), ("recursive-operation-on-cyclic-structure", 2000)],
+                min_classes: &[("typed-argument-list", 500_000), ("untyped-argument-list", 200_000), ("user-alias", 5000), ("user-function", 5000), ("finite-for-loop", 5000), ("loop-body-shrinks-the-iterated-array", 1500), ("script-run-in-two-parts-on-one-context", 20000), ("recursive-operation-on-cyclic-structure", 2000)],
             },
             Section {
                 name: "commands-large",
